@@ -151,12 +151,35 @@ class C14(HttpProp):
                     ops.append(f"inst {rng.randrange(2)}")
                 ops += g.op()
             out.append(Case(f"c14-{k}", ops, mode="http"))
+        # payloads of every size the protocol allows (well below the 100 MB refusal): around powers of two
+        # where buffers and default limits sit
+        sizes_b = [65535, 65536, 65537, 131072, 262143, 262144, 262145, 300000, 524289, 1048577, 2097153, 4194305, 8388609]
+        if tier == "thorough":
+            sizes_b += [16777217, 33554433, 67108865, 104857600]
+        for j, nb in enumerate(sizes_b):
+            kch = [1, 3, 2][j % 3]
+            ops = ["http POST av hyph=nil hyph=1 history b:1", f"http POST av hyph=latest:1 hyph=1 history big:{nb}:{kch}",
+                   "http GET gcv hyph=anc:1:1 hyph=1 absent e", f"http POST as hyph=latest:1 hyph=1 snapshot big:{nb + 1}:{kch}",
+                   "http GET snap - hyph=1 absent e", f"http POST av hyph=nil hyph=fresh history big:{nb}:{kch}"]
+            out.append(Case(f"c14-big{j}", ops, {"big": True}, mode="http"))
         return out
+    def oracle(self, case, trace, backend):
+        if not case.meta.get("big"):
+            return []
+        fails = []
+        for i, (o, ri, rm) in enumerate(trace):
+            if o.startswith("http "):
+                r = HResp(ri)
+                if r.status != 200:
+                    fails.append(f"{backend}: request #{i} `{o[:40]}...` (a well-formed request whose outcome is success; body of {HOp(o).total()} bytes) answered {r.status}")
+        return fails
     def relevant(self, i, trace):
         o, ri, rm = trace[i]
         return o.startswith("http ") and HOp(o).valid()
     def derive(self, case, trace, backend):
         """the twin: the same history through the library (add-version auto-creates the client)"""
+        if case.meta.get("big"):
+            return []
         ops, seen, acc = [], set(), {}
         cfgline = [o for o in case.ops if o.startswith("cfg ")]
         ops += cfgline
@@ -278,6 +301,18 @@ def grid_requests(rng, tier, client=1):
                 seg = f"hyph=latest:{client}" if route in ("av", "gcv", "as") else "-"
                 keep.append(f"http {m} {route} {seg} hyph={client} {ct} b:5")
         reqs = keep
+    # request headers that are no part of the protocol (content negotiation, conditional and range
+    # requests, proxies, browsers): every route answers as it does without them
+    xhs = ["ae-none", "ae-star0", "ae-compress", "ae-gzip", "accept-json", "accept-none", "range", "inm", "cache", "origin", "fwd", "te"]
+    for xh in xhs:
+        for route, m, ct in (("av", "POST", "history"), ("gcv", "GET", "absent"), ("as", "POST", "snapshot"), ("snap", "GET", "absent"),
+                             ("index", "GET", "absent"), ("unknown1", "GET", "absent"), ("gcv", "PUT", "absent")):
+            seg = f"hyph=latest:{client}" if route in ("av", "gcv", "as") else "-"
+            reqs.append(f"http {m} {route} {seg} hyph={client} {ct} b:5 xh={xh}")
+        reqs.append(f"http GET gcv hyph=anc:{client}:1 hyph={client} absent e xh={xh}")
+        reqs.append(f"http GET gcv hyph=fresh hyph={client} absent e xh={xh}")
+        reqs.append(f"http POST av hyph=fresh hyph={client} history b:5 xh={xh}")
+        reqs.append(f"http GET snap - absent absent e xh={xh}")
     # refused requests of a client the server has never seen (nothing may be created for it)
     for body in ("e", "e1"):
         reqs += [f"http POST av hyph=nil hyph=fresh history {body}", f"http POST as hyph=nil hyph=fresh snapshot {body}",
@@ -471,6 +506,16 @@ class C16(HttpProp):
                         f"http POST av hyph=latest:{c} {f}={c} history b:1,{c}", "dumpall",
                         f"http POST as hyph=latest:{c} {f}={c} snapshot b:2,{c}", "dumpall"]
             ops += [f"http GET snap - nonhex=1 absent e", "http GET snap - absent absent e"]
+            # ids that are NEAR a listed id (one bit flipped, one half shared, bytes reversed) are other ids
+            if al not in ("none", "-"):
+                L = int(al.split(",")[k % len(al.split(","))])
+                for v in ((k // 6) % 6, (k // 6 + 3) % 6):
+                    c = 2000 + 10 * L + v
+                    f = r.choice(VALID_FORMS)
+                    ops += ["dumpall", f"http GET snap - {f}={c} absent e", "dumpall",
+                            f"http GET gcv hyph=nil {f}={c} absent e", "dumpall",
+                            f"http POST av hyph=latest:{L} {f}={c} history b:1,7", "dumpall",
+                            f"http POST as hyph=latest:{L} {f}={c} snapshot b:2,7", "dumpall"]
             out.append(Case(f"c16-{k}", ops, {"allow": al}, mode="http"))
         return out
     def _allow_at(self, trace, i):
